@@ -117,6 +117,8 @@ def run(ctx):
         ctx.check(good, "C06.identity", "C06.identity:no-conflict", w.where(f), bad_msg=f"{[D.show(p.ret)[:100] for p in empt][:2]}")
     except D.Unrecognised as e:
         ctx.unrecognised("C06.identity", "C06.identity:no-conflict", w.where(f), str(e))
+    from . import C07 as _C07
+    _C07.auth_diff_operand(ctx, w, "C06.orders", "C06.orders:auth-diff-operand")
     from . import controls
     controls.order(ctx, "C06.sites")
     ctx.assumptions += ["HashMap/HashSet/BinaryHeap semantics; Ord of Int, MilliSecondsSinceUnixEpoch and event ids is total",
